@@ -1,6 +1,7 @@
 import CoapVerif.Lemmas.StreamFeed
 import CoapVerif.Lemmas.StreamWs
 import CoapVerif.Lemmas.StreamWsSafe
+import CoapVerif.Lemmas.StreamWsClose
 /-
 C05 — stream transports deliver the same messages however the byte stream is cut.
 
@@ -132,25 +133,20 @@ example : (feed 100 St.init [[0x0f, 0x01, 0x00], [0x01]]).1 = [⟨0, 1, 0, [], [
   M_ws = Coap.M.Ws.feed               (coap_ws_rd_http_header, coap_ws_read, WS branch of coap_read_session after the
                                        eight `fix:` commits; Model/WsReader.lean)
 
-PROVED (second part of this section): M_ws = S_ws for every chunk list —
+PROVED (second part of this section): M_ws = S_ws for every chunk list of every byte stream —
 
-  * frame phase, full strength (`ws_frames_eq_spec`, `ws_frames_segmentation_invariant`, `ws_frames_cut_invariant`,
+  * whole connection incl. the HTTP upgrade, full strength, no hypothesis on the bytes (`ws_reader_eq_spec`,
+    `ws_reader_segmentation_invariant`, `ws_reader_cut_invariant`, `ws_no_message_stuck`, `ws_reader_no_oob`):
+    NUL bytes inside the header block are part of S (SPEC DECISION D20: a line with a NUL in front of its LF has no
+    end; libcoap's strchr sees it the same way, `lfIdx_eq`), and a header line that starts with its separator —
+    which libcoap used to take for the end of the header block (`ws c <101 response> " x\r\n" <frame>` delivered
+    the frame's message from a connection whose header block had not ended) — is refused since the `fix:` commit;
+    the model is transcribed from the fixed code (`ws_blank_led_line_refused`);
+  * frame phase (`ws_frames_eq_spec`, `ws_frames_segmentation_invariant`, `ws_frames_cut_invariant`,
     `ws_frames_no_message_stuck`, `ws_frames_no_oob`): from every reader state of the invariant `WsInv` whose
     handshake is done (in particular the state right after the handshake), for every list of chunks;
-  * whole connection incl. the HTTP upgrade (`ws_reader_eq_spec_partial`, `ws_reader_segmentation_invariant_partial`,
-    `ws_reader_cut_invariant_partial`, `ws_no_message_stuck_partial`, `ws_reader_no_oob_partial`): for every list of
-    chunks whose concatenation satisfies `hsCleanOf` — every complete handshake line is free of NUL bytes and no
-    accepted header line starts with its separator.  Outside that sub-domain M_ws and S_ws really differ
-    (`ws_blank_led_line_differs`: libcoap takes a header line that starts with a blank for the end of the header
-    block — design/C05.md "observations not acted on"; NUL: C strings, never generated), so the FULL STATEMENT
-
-      theorem ws_reader_eq_spec (mode) (accept) (chunks : List Bytes) :
-          wsObs (Ws.feed mode accept {} chunks) = specObs (Ws.run (Ws.validator mode accept) mode chunks.flatten)
-
-    is false for the model as transcribed; the `_partial` theorems exclude exactly the header blocks with such a line;
-  * every byte stream, every chunk list, no hypothesis (`ws_reader_no_oob`, `ws_reader_final_state`;
-    Lemmas/StreamWsSafe.lean): the reader never leaves `http_hdr[160]` / `rd_header[14]`, never stalls with bytes
-    available, and an open session holds at most an unfinished header line or a proper prefix of one frame.
+  * `ws_reader_final_state` (Lemmas/StreamWsSafe.lean): an open session holds at most an unfinished header line or
+    a proper prefix of one frame.
 
 Method (Lemmas/StreamWs{Defs,Hs,Frames,Session,Feed}.lean): the abstraction `Abs` = (phase, bytes consumed but not yet
 delivered), the invariant `WsInv mode st a` tying (http_hdr, seen_*, rd_header/hdr_ofs, all_hdr_in, mask_key, data_size,
@@ -158,41 +154,10 @@ data_ofs, rx_data) to S's parser position `a`, "remaining work" step lemmas for 
 (`rdHttpHeader_spec`), coap_ws_read (`readFrame_spec`, `readData_post`), coap_read_session (`readSession_spec`), the
 event loop on a chunk (`feedChunk_spec`) and induction over the chunk list (`feed_spec`).
 
-First part of the section (older, kept): the handshake-line clause for streams without LF, the one-step closing
-lemmas of M_ws in any state, and the closing clauses of S_ws. -/
+First part of the section (older, kept): the one-step closing lemma of M_ws in any state and the closing clauses
+of S_ws. -/
 section Ws
 open Coap.M.Ws Coap.Spec.Stream.Ws
-
-/-- segmentation invariance on the domain "no line end received yet": any two ways of delivering the same
-bytes leave the reader in the same state — the bytes buffered, or the session closed once 159 have arrived
-("an over-long handshake line closes the session instead of being buffered") -/
-theorem ws_first_line_segmentation_invariant_partial (mode : Mode) (accept : Bytes) (chunks₁ chunks₂ : List Bytes)
-    (h : chunks₁.flatten = chunks₂.flatten) (hno : noLF chunks₁.flatten) :
-    Coap.M.Ws.feed mode accept {} chunks₁ = Coap.M.Ws.feed mode accept {} chunks₂ := by
-  have e : ({} : Coap.M.Ws.St) = hsState [] := rfl
-  have h0 : noLF ([] : Bytes) := fun _ hx => by simp at hx
-  rw [e, feed_noLF mode accept chunks₁ [] h0 hno (by decide),
-    feed_noLF mode accept chunks₂ [] h0 (h ▸ hno) (by decide), h]
-
-/-- … and on that domain M_ws agrees with S_ws: nothing delivered, closed exactly when S says so -/
-theorem ws_first_line_eq_spec_partial (mode : Mode) (accept : Bytes) (chunks : List Bytes) (hno : noLF chunks.flatten) :
-    (Coap.M.Ws.feed mode accept {} chunks).1 = (run (validator mode accept) mode chunks.flatten).msgs ∧
-    ((Coap.M.Ws.feed mode accept {} chunks).2.1 = Sess.closed ↔
-      (run (validator mode accept) mode chunks.flatten).closed = true) := by
-  have e : ({} : Coap.M.Ws.St) = hsState [] := rfl
-  have h0 : noLF ([] : Bytes) := fun _ hx => by simp at hx
-  rw [e, feed_noLF mode accept chunks [] h0 hno (by decide)]
-  generalize chunks.flatten = bs at hno ⊢
-  have hlf := lfIndex_none _ hno
-  by_cases hlt : ([] : Bytes).length + bs.length < httpCap - 1
-  · have : ¬ maxLine < bs.length := by
-      simp only [List.length_nil, httpCap, maxLine] at hlt ⊢; omega
-    simp only [if_pos hlt, run, handshake, hlf, if_neg this]
-    simp
-  · have : maxLine < bs.length := by
-      simp only [List.length_nil, httpCap, maxLine] at hlt ⊢; omega
-    simp only [if_neg hlt, run, handshake, hlf, if_pos this]
-    simp
 
 /-- M_ws, any state before the handshake is complete: with 159 bytes of a line buffered and no line end, the
 next call closes the session; it reads nothing more -/
@@ -237,7 +202,7 @@ example : (Coap.M.Ws.feed .server [] { up := true } [[0x82, 0x83, 1, 2, 3, 4, 0]
 
 /-- the reader state of a new session satisfies the invariant: handshake phase, nothing consumed -/
 theorem ws_init_inv (mode : Mode) : WsInv mode {} (.hs {} []) :=
-  ⟨⟨rfl, (fun _ h => nomatch h), (by decide), rfl, rfl, rfl⟩, rfl, rfl⟩
+  ⟨⟨rfl, rfl, (by decide), rfl, rfl, rfl⟩, rfl, rfl⟩
 
 /-- the reader state right after the handshake (nothing carried over) satisfies the invariant -/
 theorem ws_up_inv (mode : Mode) : WsInv mode { up := true } (.fr []) := Or.inl ⟨⟨rfl, rfl, rfl, rfl⟩, trivial⟩
@@ -252,7 +217,7 @@ theorem ws_frames_eq_spec (mode : Mode) (accept : Bytes) (st : Coap.M.Ws.St) (p 
     wsObs (Coap.M.Ws.feed mode accept st chunks) =
       specObs ⟨(frames mode ((p ++ chunks.flatten).length + 1) (p ++ chunks.flatten)).1, true,
                (frames mode ((p ++ chunks.flatten).length + 1) (p ++ chunks.flatten)).2⟩ :=
-  wsObs_of_post mode _ _ (feed_spec mode accept chunks st (.fr p) hinv trivial)
+  wsObs_of_post mode _ _ (feed_spec mode accept chunks st (.fr p) hinv)
 
 /-- (the property, frame phase) two segmentations of the same bytes: same messages, same order, same end -/
 theorem ws_frames_segmentation_invariant (mode : Mode) (accept : Bytes) (st : Coap.M.Ws.St) (p : Bytes)
@@ -275,7 +240,7 @@ theorem ws_frames_no_message_stuck (mode : Mode) (accept : Bytes) (st : Coap.M.W
     (Coap.M.Ws.feed mode accept st chunks).2.2 = false ∧
     (∃ p', WsInv mode st' (.fr p') ∧ frames mode (p'.length + 1) p' = ([], false)) ∧
     frames mode ((p ++ chunks.flatten).length + 1) (p ++ chunks.flatten) = ((Coap.M.Ws.feed mode accept st chunks).1, false) := by
-  have hp := feed_spec mode accept chunks st (.fr p) hinv trivial
+  have hp := feed_spec mode accept chunks st (.fr p) hinv
   generalize Coap.M.Ws.feed mode accept st chunks = r at hp h
   obtain ⟨ms, sess, stuck⟩ := r
   simp only at h
@@ -303,41 +268,38 @@ theorem ws_frames_no_oob (mode : Mode) (accept : Bytes) (st : Coap.M.Ws.St) (p :
   simp only [specObs]
   constructor <;> split <;> simp
 
-/-- (P1, whole connection) for every list of chunks whose concatenation has a plain header block (`hsCleanOf`:
-no NUL byte in a complete handshake line, no accepted header line starting with its separator): the messages,
-their order, `up` and closed-or-not are what S_ws computes from the concatenated bytes alone.
-FULL STATEMENT (without `hclean`) is false for the model: `ws_blank_led_line_differs`. -/
-theorem ws_reader_eq_spec_partial (mode : Mode) (accept : Bytes) (chunks : List Bytes)
-    (hclean : hsCleanOf mode accept {} chunks.flatten = true) :
+/-- (P1, whole connection, full strength) for EVERY byte stream and EVERY way of handing it to the reader — any
+number of chunks of any sizes, cuts inside handshake lines, between CR and LF, inside frame headers, mask keys and
+payloads; NUL bytes, binary bytes and blank-led lines inside the header block included — the messages that reach
+coap_dispatch, their order, whether the WebSocket session came up and whether it is closed are what S_ws computes
+from the concatenated bytes alone. -/
+theorem ws_reader_eq_spec (mode : Mode) (accept : Bytes) (chunks : List Bytes) :
     wsObs (Coap.M.Ws.feed mode accept {} chunks) = specObs (run (validator mode accept) mode chunks.flatten) := by
   rw [run_eq_hsRes, show (validator mode accept).init = ({} : Seen) from rfl]
-  have := feed_spec mode accept chunks {} (.hs {} []) (ws_init_inv mode) (by simpa [Clean] using hclean)
+  have := feed_spec mode accept chunks {} (.hs {} []) (ws_init_inv mode)
   exact wsObs_of_post mode _ _ (by simpa [specFrom] using this)
 
 /-- (the property, whole connection) equal concatenation ⇒ equal observation -/
-theorem ws_reader_segmentation_invariant_partial (mode : Mode) (accept : Bytes) (chunks₁ chunks₂ : List Bytes)
-    (h : chunks₁.flatten = chunks₂.flatten) (hclean : hsCleanOf mode accept {} chunks₁.flatten = true) :
+theorem ws_reader_segmentation_invariant (mode : Mode) (accept : Bytes) (chunks₁ chunks₂ : List Bytes)
+    (h : chunks₁.flatten = chunks₂.flatten) :
     wsObs (Coap.M.Ws.feed mode accept {} chunks₁) = wsObs (Coap.M.Ws.feed mode accept {} chunks₂) := by
-  rw [ws_reader_eq_spec_partial mode accept chunks₁ hclean, ws_reader_eq_spec_partial mode accept chunks₂ (h ▸ hclean), h]
+  rw [ws_reader_eq_spec mode accept chunks₁, ws_reader_eq_spec mode accept chunks₂, h]
 
-/-- … over cut placements: for all streams with a plain header block and all ways of cutting them -/
-theorem ws_reader_cut_invariant_partial (mode : Mode) (accept : Bytes) (stream : Bytes) (cuts₁ cuts₂ : List Nat)
-    (hclean : hsCleanOf mode accept {} stream = true) :
+/-- … over cut placements: for all byte streams and all ways of cutting them -/
+theorem ws_reader_cut_invariant (mode : Mode) (accept : Bytes) (stream : Bytes) (cuts₁ cuts₂ : List Nat) :
     wsObs (Coap.M.Ws.feed mode accept {} (segment stream cuts₁)) =
       wsObs (Coap.M.Ws.feed mode accept {} (segment stream cuts₂)) :=
-  ws_reader_segmentation_invariant_partial mode accept _ _ (by rw [segment_flatten, segment_flatten])
-    (by rw [segment_flatten]; exact hclean)
+  ws_reader_segmentation_invariant mode accept _ _ (by rw [segment_flatten, segment_flatten])
 
 /-- no message is stuck (whole connection): open after the last chunk ⇒ not stalled, the state satisfies the
 invariant for a parser position `a` at which S finds nothing further, and S's result on the bytes received is
 exactly the messages delivered -/
-theorem ws_no_message_stuck_partial (mode : Mode) (accept : Bytes) (chunks : List Bytes)
-    (hclean : hsCleanOf mode accept {} chunks.flatten = true) (st' : Coap.M.Ws.St)
+theorem ws_no_message_stuck (mode : Mode) (accept : Bytes) (chunks : List Bytes) (st' : Coap.M.Ws.St)
     (h : (Coap.M.Ws.feed mode accept {} chunks).2.1 = .open st') :
     (Coap.M.Ws.feed mode accept {} chunks).2.2 = false ∧
     (∃ a, WsInv mode st' a ∧ specFrom mode accept a [] = ⟨[], st'.up, false⟩) ∧
     run (validator mode accept) mode chunks.flatten = ⟨(Coap.M.Ws.feed mode accept {} chunks).1, st'.up, false⟩ := by
-  have hp := feed_spec mode accept chunks {} (.hs {} []) (ws_init_inv mode) (by simpa [Clean] using hclean)
+  have hp := feed_spec mode accept chunks {} (.hs {} []) (ws_init_inv mode)
   rw [run_eq_hsRes, show (validator mode accept).init = ({} : Seen) from rfl]
   generalize Coap.M.Ws.feed mode accept {} chunks = r at hp h
   obtain ⟨ms, sess, stuck⟩ := r
@@ -347,18 +309,10 @@ theorem ws_no_message_stuck_partial (mode : Mode) (accept : Bytes) (chunks : Lis
   obtain ⟨hst, ⟨a', hi⟩, hR⟩ := hp
   exact ⟨hst, ⟨a', hi, specFrom_pend mode accept st' a' hi⟩, by simpa [specFrom] using hR⟩
 
-/-- no index ≥ 160 into `http_hdr`, none ≥ 14 into `rd_header`, no read of an unwritten byte, no stall -/
-theorem ws_reader_no_oob_partial (mode : Mode) (accept : Bytes) (chunks : List Bytes)
-    (hclean : hsCleanOf mode accept {} chunks.flatten = true) :
-    (wsObs (Coap.M.Ws.feed mode accept {} chunks)).2 ≠ .oob ∧ (wsObs (Coap.M.Ws.feed mode accept {} chunks)).2 ≠ .stuck := by
-  rw [ws_reader_eq_spec_partial mode accept chunks hclean]
-  simp only [specObs]
-  constructor <;> split <;> simp
-
 /-- (full strength, no hypothesis on the bytes) for EVERY byte stream and every segmentation the reader stays
 inside its buffers — no index ≥ 160 into `http_hdr`, none ≥ 14 into `rd_header`, the bytes carried over after the
 empty line fit `rd_header`, no byte read that was not written — and never stalls with bytes available (every
-`coap_read_session` call consumes at least one byte or closes); also for header blocks outside `hsCleanOf` -/
+`coap_read_session` call consumes at least one byte or closes) -/
 theorem ws_reader_no_oob (mode : Mode) (accept : Bytes) (chunks : List Bytes) :
     (wsObs (Coap.M.Ws.feed mode accept {} chunks)).2 ≠ .oob ∧ (wsObs (Coap.M.Ws.feed mode accept {} chunks)).2 ≠ .stuck := by
   have := feed_safe mode accept chunks {} (Or.inl ⟨rfl, rfl, by decide, rfl, rfl, rfl⟩)
@@ -395,8 +349,6 @@ def wsDemo : Bytes :=
   asc "GET /.well-known/coap HTTP/1.1\r\nHost: x\r\nUpgrade: websocket\r\nConnection: Upgrade\r\nSec-WebSocket-Key: AAECAwQFBgcICQoLDA0ODw==\r\nSec-WebSocket-Protocol: coap\r\nSec-WebSocket-Version: 13\r\n\r\n" ++
   [0x82, 0x82, 1, 2, 3, 4, 1, 3,  0x82, 0x80, 9, 9, 9, 9,  0x82, 0x83, 1, 2, 3, 4, 1, 3, 0xb3]
 
-/-- the hypothesis of the `_partial` theorems holds for it -/
-example : hsCleanOf .server [] {} wsDemo = true := by decide +kernel
 /-- S: two messages, session up and open -/
 example : specObs (run (validator .server []) .server wsDemo) =
     ([⟨0, 1, 0, [], [], []⟩, ⟨0, 1, 0, [], [(11, [])], []⟩], .open true) := by decide +kernel
@@ -416,16 +368,23 @@ example : (match (Coap.M.Ws.feed .server [] {} (segment (wsDemo.take (wsDemo.len
     | .open st => wsAbs st | _ => .hs {} []) = .fr [0x82, 0x83, 1, 2, 3, 4, 1, 3] := by decide +kernel
 example : (match (Coap.M.Ws.feed .server [] {} (segment (wsDemo.take (wsDemo.length - 1)) [5, 100, 80, 1, 4, 3, 1, 9, 4])).2.1 with
     | .open st => wsAbs st | _ => .hs {} []) = .fr [0x82, 0x83, 1, 2, 3, 4, 1, 3] := by decide +kernel
-/-- the sub-domain excluded by `hsCleanOf` is one where M_ws and S_ws really differ: a header line that starts
-with a blank is taken by libcoap for the end of the header block (here: refused, headers missing), by S for an
-ordinary header line (block not finished) -/
-theorem ws_blank_led_line_differs :
+/-- the former `hsCleanOf` sub-domain: a header line that starts with a blank used to be taken by libcoap for the
+end of the header block; since the `fix:` commit it is refused, which is what S (with the per-line acceptance of
+the fixed code, D17) says — under every segmentation -/
+theorem ws_blank_led_line_refused :
     wsObs (Coap.M.Ws.feed .server [] {} [asc "GET /.well-known/coap HTTP/1.1\r\n x\r\n"]) = ([], .closed) ∧
-    specObs (run (validator .server []) .server (asc "GET /.well-known/coap HTTP/1.1\r\n x\r\n")) = ([], .open false) ∧
-    hsCleanOf .server [] {} (asc "GET /.well-known/coap HTTP/1.1\r\n x\r\n") = false := by decide +kernel
-/-- … and there the reader still stays inside its buffers (`ws_reader_no_oob` needs no hypothesis) -/
-example : (wsObs (Coap.M.Ws.feed .server [] {} (segment (asc "GET /.well-known/coap HTTP/1.1\r\n x\r\n") [3, 20]))).2 ≠ .oob :=
-  (ws_reader_no_oob _ _ _).1
+    wsObs (Coap.M.Ws.feed .server [] {} (segment (asc "GET /.well-known/coap HTTP/1.1\r\n x\r\n") [3, 29, 1, 1])) = ([], .closed) ∧
+    specObs (run (validator .server []) .server (asc "GET /.well-known/coap HTTP/1.1\r\n x\r\n")) = ([], .closed) := by
+  decide +kernel
+/-- a NUL byte in a header line (D20): the LF behind it is not a line end — model and S wait (here: the "empty line"
+and a frame behind it are not looked at), under two segmentations; and after 159 bytes of that line both close -/
+def wsNulDemo : Bytes := asc "GET /.well-known/coap HTTP/1.1\r\nX: a" ++ [0] ++ asc "b\r\n\r\n" ++ [0x82, 0x80, 1, 2, 3, 4]
+example : wsObs (Coap.M.Ws.feed .server [] {} [wsNulDemo]) = ([], .open false) ∧
+    wsObs (Coap.M.Ws.feed .server [] {} (segment wsNulDemo [31, 5, 1, 1, 1, 1, 1])) = ([], .open false) ∧
+    specObs (run (validator .server []) .server wsNulDemo) = ([], .open false) := by decide +kernel
+example : wsObs (Coap.M.Ws.feed .server [] {} [wsNulDemo ++ List.replicate 150 10]) = ([], .closed) ∧
+    wsObs (Coap.M.Ws.feed .server [] {} (segment (wsNulDemo ++ List.replicate 150 10) [40, 100, 50])) = ([], .closed) ∧
+    specObs (run (validator .server []) .server (wsNulDemo ++ List.replicate 150 10)) = ([], .closed) := by decide +kernel
 /-- frame phase, client side: 16-bit length form, three frames, cut in the extended length / after the header /
 one byte per read — and 17 frames without data in front of a message (the model's former fuel bound) -/
 example : wsObs (Coap.M.Ws.feed .client [] { up := true } (segment [0x82, 0x7e, 0, 3, 1, 1, 0xaa, 0x82, 0, 0x82, 2, 0, 2] [3, 1, 5])) =
@@ -441,6 +400,52 @@ example : wsObs (Coap.M.Ws.feed .client [] { up := true } (segment [0x82, 0x7e, 
 example : WsInv .client { up := true, rdHeader := [0x82, 3, 7], allHdrIn := true, dataSize := 3, dataOfs := 1, rxData := some [7] }
     (.fr [0x82, 3, 7]) :=
   Or.inr ⟨rfl, rfl, 0x82, 3, [], [7], by decide⟩
+
+/-! ### coap_ws_close: draining the socket for the peer's Close frame
+
+`wsClose` / `closeDrain` (Model/WsReader.lean) = the `while (!recv_close && count > 0 …)` loop: select(), then
+`coap_ws_read` into a 100-byte stack buffer.  Entered by the application at any time and by the reader itself right
+after it refused a frame, so the statements are for EVERY reader state (no invariant) and every pending byte string.
+Tied to the code by the `wsclose` lines of the check (recv_close and the number of bytes left unread). -/
+
+/-- the drain terminates after at most 5 `coap_ws_read` calls, whatever the reader state and whatever the peer has
+sent (each call's own `goto next_frame` loop is bounded by the bytes at hand: the model's fuel) -/
+theorem ws_close_drain_bounded (mode : Mode) (st : Coap.M.Ws.St) (av : Bytes) :
+    (wsClose mode st av).2.2.2 ≤ 5 := closeDrain_calls_le mode drainCount st av
+
+/-- nothing pending: nothing is read, the reader state is untouched, no Close frame seen -/
+theorem ws_close_drain_idle (mode : Mode) (st : Coap.M.Ws.St) : wsClose mode st [] = (false, st, [], 0) :=
+  closeDrain_idle mode drainCount st
+
+/-- `recv_close` is only reported when a Close frame header (opcode 8) has been completed in `rd_header` -/
+theorem ws_close_drain_recv (mode : Mode) (st : Coap.M.Ws.St) (av : Bytes) (h : (wsClose mode st av).1 = true) :
+    ∃ b0 b1 r, (wsClose mode st av).2.1.rdHeader = b0 :: b1 :: r ∧ b0.toNat % 16 = 8 :=
+  closeDrain_recv mode drainCount st av h
+
+/-- the "Get in (remaining) data" part of `coap_ws_read`, ANY reader state and ANY caller buffer size `datalen`: a
+payload handed back fits the caller's buffer and bytes are only consumed from the front of what is available — the
+clause the former defect G violated (a frame in progress longer than coap_ws_close's 100-byte buffer) -/
+theorem ws_read_data_fits (mode : Mode) (st : Coap.M.Ws.St) (av data : Bytes) (datalen : Nat) :
+    (readData mode st av data datalen).2.2.length ≤ av.length ∧
+    ∀ pl, (readData mode st av data datalen).1 = .pkt pl → pl.length ≤ datalen :=
+  readData_fits mode st av data datalen
+
+/-- four pending 14-byte frames are discarded and the Close frame behind them is found by the 5th call; with six of
+them it is not reached (5 calls, 16 bytes left unread); frames that arrive together with the Close frame in ONE
+14-byte header read stay in `rd_header`: the socket is not readable any more, the loop only waits (1 call, Close frame
+not seen — an observation, not a safety matter); a frame of 101 bytes does not fit the 100-byte buffer: refused, no
+further byte is read; after an unmasked frame to a server the drain cannot progress -/
+example : (wsClose .client { up := true } ((List.replicate 4 [0x82, 12, 0, 1,2,3,4,5,6,7,8,9,10,11]).flatten ++ [0x88, 0])).1 = true ∧
+    (wsClose .client { up := true } ((List.replicate 4 [0x82, 12, 0, 1,2,3,4,5,6,7,8,9,10,11]).flatten ++ [0x88, 0])).2.2.2 = 5 := by
+  decide +kernel
+example : (wsClose .client { up := true } ((List.replicate 6 [0x82, 12, 0, 1,2,3,4,5,6,7,8,9,10,11]).flatten ++ [0x88, 0])).1 = false ∧
+    (wsClose .client { up := true } ((List.replicate 6 [0x82, 12, 0, 1,2,3,4,5,6,7,8,9,10,11]).flatten ++ [0x88, 0])).2.2.1.length = 16 := by
+  decide +kernel
+example : (wsClose .client { up := true } [0x82, 2, 0, 1, 0x82, 2, 0, 2, 0x88, 2, 3, 0xe8]).1 = false ∧
+    (wsClose .client { up := true } [0x82, 2, 0, 1, 0x82, 2, 0, 2, 0x88, 2, 3, 0xe8]).2.2.2 = 1 := by decide +kernel
+example : (wsClose .client { up := true } ([0x82, 101] ++ List.replicate 101 0 ++ [0x88, 0])).1 = false ∧
+    (wsClose .client { up := true } ([0x82, 101] ++ List.replicate 101 0 ++ [0x88, 0])).2.2.1.length = 91 := by decide +kernel
+example : (wsClose .server { up := true } [0x82, 2, 0, 1, 0x88, 0x80, 1, 2, 3, 4]).1 = false := by decide
 
 end Ws
 
